@@ -34,6 +34,7 @@ ACC_OBS = ["npts", "time", "fa_spectrum", "fa_freqs", "smooth_fa_spectrum", "smo
 SIG_OBS = ["npts", "time", "fa_spectrum", "fa_freqs", "smooth_fa_spectrum", "smooth_fa_freqs"]
 ACC_STATE = ["fa_spectrum", "smooth_fa_spectrum", "velocity", "pga", "pgv", "pgd", "s_a"]
 SIG_STATE = ["fa_spectrum", "smooth_fa_spectrum"]
+RS_OBS = ("s_a", "s_v", "s_d")
 
 
 def read(obj, name):
@@ -68,6 +69,31 @@ def compare(ctx, name, got, want, what):
         i = int(np.argmax(d))
         ctx.fail("%s: %s is stale/inconsistent: object reports %r at [%d], a fresh object with the same values and settings reports %r "
                  "(max |diff| %.3g, scale %.3g)" % (what, name, g.ravel()[i], i, w.ravel()[i], float(np.max(d)), scale))
+
+
+def pure(ctx, obj, snap, what):
+    """A read (or a settings change) must not change the record: `values` bit for bit equal to the snapshot taken after the
+    last change of the values; npts consistent.  The fresh object of the other comparisons is built from the object's CURRENT
+    values, so a read that rewrites the record (e.g. scales it in place) is invisible to them: this check is what sees it."""
+    v = np.asarray(obj.values)
+    if v.shape != snap.shape:
+        ctx.fail("%s: the values of the object now have shape %s, they had %s" % (what, v.shape, snap.shape))
+    if not np.array_equal(v, snap, equal_nan=True):
+        bad = ~((v == snap) | ((v != v) & (snap != snap)))
+        i = int(np.argmax(bad))
+        ctx.fail("%s: the values of the object changed although nothing but reads / settings changes happened: values[%d] was %r, is %r "
+                 "(%d of %d samples differ)" % (what, i, snap.ravel()[i], v.ravel()[i], int(np.sum(bad)), v.size))
+    if obj.npts != len(snap):
+        ctx.fail("%s: npts is %r, the record has %d samples" % (what, obj.npts, len(snap)))
+
+
+# small record lengths: an exact power of two (no zero padding before the Fourier transform), its neighbours, and a length that is
+# neither; the quick enumerations rotate through them with the index of the case and VERIF_SEED, thorough ones take all
+SMALL_LENGTHS = [96, 128, 127, 129]
+
+
+def _small_n(i):
+    return SMALL_LENGTHS[(int(i) + gen.run_seed()) % len(SMALL_LENGTHS)]
 
 
 # ---------------------------------------------------------------------------
@@ -251,13 +277,15 @@ def _enum_cases(cls_name):
     muts = [m for m in FIXED_ARGS if cls_name == "acc" or m not in ACC_ONLY]
 
     def enum(tier, shard, nshards):
-        lengths = [96] if tier == "quick" else [65, 95, 96, 128, 130]
+        lengths = [None] if tier == "quick" else [64, 65, 96, 127, 128, 129]
         i = 0
         for n in lengths:
             for mask in range(2 ** len(state)):
-                for mut in muts:
+                for k, mut in enumerate(muts):
                     if i % nshards == shard:
-                        yield {"cls": cls_name, "n": n, "state": mask, "mut": mut}
+                        # quick: one of SMALL_LENGTHS per (state, change), rotating (every length meets every change and every state
+                        # in which a given quantity is cached)
+                        yield {"cls": cls_name, "n": _small_n(mask + k + bin(mask).count("1")) if n is None else n, "state": mask, "mut": mut}
                     i += 1
     return enum
 
@@ -267,15 +295,19 @@ def _exhaustive(case, ctx):
     state = ACC_STATE if cls_name == "acc" else SIG_STATE
     obs = ACC_OBS if cls_name == "acc" else SIG_OBS
     obj = _make(cls_name, case["n"])
+    v0 = np.array(obj.values)
     reads = [nm for b, nm in enumerate(state) if case["state"] >> b & 1]
     for nm in reads:
         read(obj, nm)
+    pure(ctx, obj, v0, "n=%d, reads %s" % (case["n"], reads))
     _apply(ctx, obj, case["mut"], FIXED_ARGS[case["mut"]], fixed=True)
+    vsnap = np.array(obj.values)  # the record as the change left it: no read may alter it
     fresh = fresh_of(obj)
     want = {nm: copy.deepcopy(read(fresh, nm)) for nm in obs}
-    ctx.cls("mut=" + case["mut"], "reads=%d" % len(reads))
+    ctx.cls("mut=" + case["mut"], "reads=%d" % len(reads), "n=%d" % case["n"])
     ctx.nt(len(reads) > 0)
-    what = "after reads %s then %s" % (reads, case["mut"])
+    what = "n=%d, after reads %s then %s" % (case["n"], reads, case["mut"])
+    pure(ctx, fresh, vsnap, what + ", reading all observables of the fresh object")
     for nm in obs:
         c = copy.deepcopy(obj)
         got = read(c, nm)
@@ -283,21 +315,25 @@ def _exhaustive(case, ctx):
         again = read(c, nm)
         if not np.array_equal(np.asarray(got), np.asarray(again), equal_nan=True):
             ctx.fail("%s: second read of %s differs from the first" % (what, nm))
+        pure(ctx, c, vsnap, "%s, reading %s" % (what, nm))
     # all observables in sequence on the object itself (reads must not disturb one another)
     for nm in obs:
         compare(ctx, nm, read(obj, nm), want[nm], what + " (sequential reads)")
+    pure(ctx, obj, vsnap, what + ", reading all observables in sequence")
 
 
 enum_clause(CLAUSES, "exhaustive-acc", _enum_cases("acc"),
             rule="AccSignal: every subset of {fa, smooth_fa, velocity/displacement, pga, pgv, pgd, response spectra} read (2^7) x every "
-                 "mutator / settings change (24) on a fixed record (quick n=96; thorough n in {65,95,96,128,130}); each case then compares all 15 "
-                 "observables, each on its own deep copy and once more sequentially; non-trivial = at least one quantity was read before the change",
-            oracle="differential against a fresh object (1e-10 of magnitude); second read identical",
+                 "mutator / settings change (26) on a fixed record (quick: n rotating through {96, 128, 127, 129} with the case; thorough: n in "
+                 "{64,65,96,127,128,129}); each case then compares all 15 observables, each on its own deep copy and once more sequentially; "
+                 "non-trivial = at least one quantity was read before the change",
+            oracle="differential against a fresh object (1e-10 of magnitude); second read identical; the "
+                   "values of the record bit for bit unchanged by the reads before and after the change",
             exhaustive_note="complete over cache state x mutator x observable for the listed records",
             quick_shards=8)(_exhaustive)
 enum_clause(CLAUSES, "exhaustive-sig", _enum_cases("sig"),
-            rule="Signal: 2^2 cache states x 14 mutators x 6 observables, same scheme",
-            oracle="differential against a fresh object (1e-10 of magnitude); second read identical",
+            rule="Signal: 2^2 cache states x 15 mutators x 6 observables, same scheme",
+            oracle="differential against a fresh object (1e-10 of magnitude); second read identical; values unchanged by reads",
             exhaustive_note="complete over cache state x mutator x observable for the listed records",
             quick_shards=1)(_exhaustive)
 
@@ -329,87 +365,133 @@ def _reapply_enum(tier, shard, nshards):
                 for s2 in names:
                     for v2 in ("fixed", "alt"):
                         if i % nshards == shard:
-                            yield {"cls": cls_name, "s1": s1, "v1": v1, "s2": s2, "v2": v2}
+                            yield {"cls": cls_name, "s1": s1, "v1": v1, "s2": s2, "v2": v2, "n": _small_n(i // 2)}
                         i += 1
 
 
 @enum_clause(CLAUSES, "reapply-settings", _reapply_enum,
              rule="every ordered pair of settings changes (11 for AccSignal, 7 for Signal; two argument sets each, one of them "
                   "re-stating the constructor's defaults): apply S1, read everything, apply S2, read everything, apply S1 again with "
-                  "the same arguments, read everything; non-trivial = S1 != S2",
-             oracle="differential against a fresh object after each of the three steps (1e-10 of magnitude)",
+                  "the same arguments, read everything; record length rotating through {96, 128, 127, 129}; non-trivial = S1 != S2",
+             oracle="differential against a fresh object after each of the three steps (1e-10 of magnitude); the values of the record bit for "
+                    "bit unchanged throughout (settings changes and reads only)",
              exhaustive_note="complete over ordered pairs of settings changes x two argument sets each, on a fixed record", quick_shards=4)
 def reapply_settings(case, ctx):
     cls_name = case["cls"]
     obs = ACC_OBS if cls_name == "acc" else SIG_OBS
-    obj = _make(cls_name, 96)
+    obj = _make(cls_name, case.get("n", 96))
+    v0 = np.array(obj.values)
     ctx.nt(case["s1"] != case["s2"])
-    ctx.cls("s1=" + case["s1"])
+    ctx.cls("s1=" + case["s1"], "n=%d" % case.get("n", 96))
 
     def args(name, which):
         return FIXED_ARGS[name] if which == "fixed" else ALT_ARGS[name]
 
     def check(what):
+        pure(ctx, obj, v0, what)
         fresh = fresh_of(obj)
         for nm in obs:
             compare(ctx, nm, read(obj, nm), read(fresh, nm), what)
+        pure(ctx, obj, v0, what + ", all observables read")
     for nm in obs:
         read(obj, nm)
+    pure(ctx, obj, v0, "n=%d, all observables read" % len(v0))
     for step, (name, which) in enumerate(((case["s1"], case["v1"]), (case["s2"], case["v2"]), (case["s1"], case["v1"]))):
         _apply(ctx, obj, name, args(name, which), fixed=True)
         check("after %s" % " -> ".join(["%s(%s)" % (case["s1"], case["v1"]), "%s(%s)" % (case["s2"], case["v2"]),
                                          "%s(%s) again" % (case["s1"], case["v1"])][:step + 1]))
 
 
+# read-type calls with one-off (non-default) arguments: name -> (call, observables the call legitimately leaves different from
+# those of an undisturbed object).  Everything else - the record itself first of all - must be untouched.
+_FA_DOWN = ("fa_spectrum", "fa_freqs", "smooth_fa_spectrum")
+ONEOFF_READS = {
+    "gen_fa_spectrum(n=npts)": (lambda o: o.gen_fa_spectrum(n=o.npts), _FA_DOWN),
+    "gen_fa_spectrum(n=npts+7)": (lambda o: o.gen_fa_spectrum(n=o.npts + 7), _FA_DOWN),
+    "gen_fa_spectrum(n=2npts)": (lambda o: o.gen_fa_spectrum(n=2 * o.npts), _FA_DOWN),
+    "gen_fa_spectrum(n=npts-9)": (lambda o: o.gen_fa_spectrum(n=o.npts - 9), _FA_DOWN),
+    "gen_fa_spectrum(p2_plus=1)": (lambda o: o.gen_fa_spectrum(p2_plus=1), _FA_DOWN),
+    "gen_fa_spectrum(p2_plus=2)": (lambda o: o.gen_fa_spectrum(p2_plus=2), _FA_DOWN),
+    "generate_smooth_fa_spectrum(band=20)": (lambda o: o.generate_smooth_fa_spectrum(band=20), ("smooth_fa_spectrum",)),
+    "gen_smooth_fa_spectrum(band=80)": (lambda o: o.gen_smooth_fa_spectrum(band=80), ("smooth_fa_spectrum",)),
+}
+ONEOFF_READS_ACC = {
+    "gen_response_spectrum(xi=0.2)": (lambda o: o.gen_response_spectrum(xi=0.2), RS_OBS),
+    "generate_response_spectrum(min_dt_ratio=1)": (lambda o: o.generate_response_spectrum(min_dt_ratio=1), RS_OBS),
+    "response_series(xi=0.1)": (lambda o: o.response_series(xi=0.1), ()),
+    "generate_displacement_and_velocity_series(trap=False)": (lambda o: o.generate_displacement_and_velocity_series(trap=False),
+                                                              ("velocity", "displacement", "pgv", "pgd")),
+}
+
+
 def _iso_enum(tier, shard, nshards):
     i = 0
     for cls_name, state, obs in (("acc", ACC_STATE, ACC_OBS), ("sig", SIG_STATE, SIG_OBS)):
         for mask in range(2 ** len(state)):
-            for x in obs + sorted(REGEN) + (sorted(REGEN_ACC) if cls_name == "acc" else []):
-                if i % nshards == shard:
-                    yield {"cls": cls_name, "state": mask, "x": x}
-                i += 1
+            xs = obs + sorted(REGEN) + (sorted(REGEN_ACC) if cls_name == "acc" else [])
+            if bin(mask).count("1") in (0, 1, len(state)):  # one-off calls: nothing / one quantity / everything cached beforehand
+                xs = xs + sorted(ONEOFF_READS) + (sorted(ONEOFF_READS_ACC) if cls_name == "acc" else [])
+            for k, x in enumerate(xs):
+                for n in ([_small_n(mask + k + bin(mask).count("1"))] if tier == "quick" else SMALL_LENGTHS):
+                    if i % nshards == shard:
+                        yield {"cls": cls_name, "state": mask, "x": x, "n": n}
+                    i += 1
 
 
 @enum_clause(CLAUSES, "read-isolation", _iso_enum,
-             rule="every cache state x every read X (15 observables + 8 explicit default regeneration calls): X read twice, then every "
-                  "other observable Y compared with Y on a deep copy taken before X was read; non-trivial = state has >= 1 cached quantity",
-             oracle="differential: deep copy before vs after a read (exact, NaN-aware); reads idempotent",
+             rule="every cache state x every read X (15 observables + 8 explicit default regeneration calls + 12 generation calls with one-off "
+                  "arguments: gen_fa_spectrum(n = npts | npts+7 | 2 npts | npts-9), (p2_plus = 1 | 2), smoothing with another band, spectra with "
+                  "another damping / min_dt_ratio, response_series, rectangle-rule integration; these in the states with nothing, one quantity or everything cached): X read twice, then the record itself and every "
+                  "other observable Y (for a one-off call: every Y the call does not legitimately regenerate) compared with a deep copy taken "
+                  "before X was read; record length rotating through {96, 128, 127, 129} (thorough: all four); non-trivial = state has >= 1 "
+                  "cached quantity",
+             oracle="differential: deep copy before vs after a read (exact, NaN-aware), values of the record bit for bit; reads idempotent",
              exhaustive_note="complete over cache state x read x other observable on a fixed record", quick_shards=2)
 def read_isolation(case, ctx):
     cls_name = case["cls"]
     state = ACC_STATE if cls_name == "acc" else SIG_STATE
     obs = ACC_OBS if cls_name == "acc" else SIG_OBS
-    obj = _make(cls_name, 96)
+    n = case.get("n", 96)
+    obj = _make(cls_name, n)
+    v0 = np.array(obj.values)
     for b, nm in enumerate(state):
         if case["state"] >> b & 1:
             read(obj, nm)
     ctx.nt(case["state"] != 0)
-    ctx.cls("x=" + case["x"])
+    ctx.cls("x=" + case["x"], "n=%d" % n)
     before = copy.deepcopy(obj)
     x = case["x"]
+    skip = ()
     if x in obs:
         v1 = copy.deepcopy(read(obj, x))
         v2 = read(obj, x)
         if not np.array_equal(np.asarray(v1), np.asarray(v2), equal_nan=True):
             ctx.fail("read of %s is not idempotent" % x)
     else:
-        fn = REGEN.get(x) or REGEN_ACC[x]
+        fn = REGEN.get(x) or REGEN_ACC.get(x)
+        if fn is None:
+            fn, skip = ONEOFF_READS.get(x) or ONEOFF_READS_ACC[x]
         try:
             fn(obj)
         except Exception as e:  # noqa
-            ctx.fail("%s() raised %s: %s" % (x, type(e).__name__, e))
+            ctx.fail("%s raised %s: %s" % (x, type(e).__name__, e))
+    pure(ctx, obj, v0, "n=%d, state %s, %s" % (n, [nm for b, nm in enumerate(state) if case["state"] >> b & 1], x))
     for y in obs:
-        if y == x:
+        if y == x or y in skip:
             continue
         got = read(obj, y)
+        pure(ctx, obj, v0, "n=%d, %s and then %s read" % (n, x, y))
         want = read(copy.deepcopy(before), y)
         if not np.array_equal(np.asarray(got), np.asarray(want), equal_nan=True):
-            ctx.fail("reading %s changed %s (state %s)" % (x, y, [nm for b, nm in enumerate(state) if case["state"] >> b & 1]))
+            ctx.fail("n=%d: reading %s changed %s (state %s)" % (n, x, y, [nm for b, nm in enumerate(state) if case["state"] >> b & 1]))
+    pure(ctx, obj, v0, "n=%d, %s and then all other observables read" % (n, x))
 
 
 # ---------------------------------------------------------------------------
 # random histories (Hypothesis state machine)
+
+
+_DEAD_OBS = ["npts", "time"]  # what is still compared once a history has left the domain of finite records
 
 
 class Hist(object):
@@ -425,6 +507,8 @@ class Hist(object):
         else:
             self.obj = eqsig.Signal(a, init["dt"])
         self.obs = ACC_OBS if self.acc else SIG_OBS
+        self.vsnap = np.array(self.obj.values)  # the record as the last change of the values left it
+        self.taint = set()                      # observables regenerated with one-off arguments since then (not comparable)
         self.read_before = set()
         self.pending = set()
         self.nmut = 0
@@ -439,10 +523,13 @@ class Hist(object):
                 if nm not in self.obs:
                     continue
                 got = read(self.obj, nm)
-                compare(ctx, nm, got, read(fresh, nm), "history step %d (read)" % self.nstep)
+                if nm not in self.taint:
+                    compare(ctx, nm, got, read(fresh, nm), "history step %d (read)" % self.nstep)
                 if nm in self.pending:
                     ctx.nt(True)
                 self.read_before.add(nm)
+            if self.obs is not _DEAD_OBS:
+                pure(ctx, self.obj, self.vsnap, "history step %d (read %s)" % (self.nstep, args["names"]))
             self.nstep += 1
         elif op == "regen":
             fn = REGEN.get(args["name"]) or (REGEN_ACC.get(args["name"]) if self.acc else None)
@@ -452,12 +539,33 @@ class Hist(object):
                 fn(self.obj)
             except Exception as e:  # noqa
                 ctx.fail("%s() raised %s: %s" % (args["name"], type(e).__name__, e))
+            if self.obs is not _DEAD_OBS:
+                pure(ctx, self.obj, self.vsnap, "history step %d (%s())" % (self.nstep, args["name"]))
+        elif op == "oneoff":
+            # a generation call with one-off arguments: what it regenerates is not comparable with a plain fresh object until the
+            # values change (which clears every cache); the record and everything else must be untouched
+            ent = ONEOFF_READS.get(args["name"]) or (ONEOFF_READS_ACC.get(args["name"]) if self.acc else None)
+            if ent is None or self.obs is _DEAD_OBS:
+                return
+            try:
+                ent[0](self.obj)
+            except Exception as e:  # noqa
+                ctx.fail("%s raised %s: %s" % (args["name"], type(e).__name__, e))
+            self.taint |= set(ent[1])
+            ctx.cls("oneoff")
+            pure(ctx, self.obj, self.vsnap, "history step %d (%s)" % (self.nstep, args["name"]))
         else:
             if op in ACC_ONLY and not self.acc:
                 return
             if op == "butter_pass" and self.obj.npts <= 3 * (2 * args.get("order", 4) + 1) + 2:
                 return
-            _apply(ctx, self.obj, op, args)
+            ok = _apply(ctx, self.obj, op, args)
+            if op in SETTINGS and ok and self.obs is not _DEAD_OBS:
+                pure(ctx, self.obj, self.vsnap, "history step %d (%s)" % (self.nstep, op))
+            else:
+                self.vsnap = np.array(self.obj.values)
+                if ok:
+                    self.taint = set()
             ctx.cls("mut=" + op)
             self.nmut += 1
             self.nstep += 1
@@ -466,12 +574,16 @@ class Hist(object):
             # the object must stay structurally sound after every change
             if not np.all(np.isfinite(np.asarray(self.obj.values, dtype=float))):
                 # the history left the domain of finite records (e.g. repeated corrections overflowed); stop comparing
-                self.obs = ["npts", "time"]
+                self.obs = _DEAD_OBS
 
     def finish(self):
         fresh = fresh_of(self.obj)
         for nm in self.obs:
-            compare(self.ctx, nm, read(self.obj, nm), read(fresh, nm), "end of history")
+            got = read(self.obj, nm)
+            if nm not in self.taint:
+                compare(self.ctx, nm, got, read(fresh, nm), "end of history")
+        if self.obs is not _DEAD_OBS:
+            pure(self.ctx, self.obj, self.vsnap, "end of history (all observables read)")
         self.ctx.cls("muts>=3" if self.nmut >= 3 else None)
 
 
@@ -480,11 +592,28 @@ _ratio_lists = st.lists(gen.log_uniform(2.0, 300.0), min_size=1, max_size=4, uni
 _long_specs = gen.record_specs(min_n=64, max_n=300, kinds=["noise", "sines", "quake", "walk", "pulse"], amp_lo=-3, amp_hi=3,
                                allow_zero_runs=False)
 
+
+
+def _with_length(t):
+    spec, n = t
+    if "n" not in spec:
+        return spec
+    spec = dict(spec, n=n)
+    if "at" in spec:
+        spec["at"] = spec["at"] % n
+        spec["w"] = min(spec["w"], max(1, n // 4))
+    return spec
+
+
+# the same records at an exact power of two (the Fourier transform then needs no zero padding) and next to one
+_pow2_specs = st.tuples(_long_specs, st.sampled_from([64, 128, 256, 127, 129, 65, 255, 257])).map(_with_length)
+_init_specs = st.one_of(_long_specs, _pow2_specs)
+
 HM = history_machine_base()
 
 
 class C04Machine(HM):
-    @initialize(rec=_long_specs, dt=st.sampled_from([0.005, 0.01, 0.02, 0.05]), acc=st.integers(0, 4).map(lambda k: k > 0),
+    @initialize(rec=_init_specs, dt=st.sampled_from([0.005, 0.01, 0.02, 0.05]), acc=st.integers(0, 4).map(lambda k: k > 0),
                 ratios=st.one_of(st.none(), _ratio_lists))
     def init(self, rec, dt, acc, ratios):
         self.start({"rec": rec, "dt": dt, "acc": acc, "ratios": ratios})
@@ -501,7 +630,11 @@ class C04Machine(HM):
     def regen(self, name):
         self.do("regen", {"name": name})
 
-    @rule(rec=_long_specs)
+    @rule(name=st.sampled_from(sorted(ONEOFF_READS) + sorted(ONEOFF_READS_ACC)))
+    def oneoff(self, name):
+        self.do("oneoff", {"name": name})
+
+    @rule(rec=_init_specs)
     def reset_values(self, rec):
         self.do("reset_values", {"rec": rec})
 
@@ -599,8 +732,11 @@ class C04Machine(HM):
 
 machine_clause(CLAUSES, "histories", C04Machine, Hist, quick=120, thorough=350, quick_steps=30, thorough_steps=60,
                rule="Hypothesis rule-based state machine: random interleavings of 24 mutators / settings changes (generated arguments), "
-                    "15 reads and 8 explicit default regeneration calls on Signal / AccSignal objects built from generated records "
-                    "(n 64..300, repo sampling rates); every read is compared with a fresh object, all observables at the end; "
+                    "15 reads, 8 explicit default regeneration calls and 12 generation calls with one-off arguments (what these regenerate "
+                    "is not compared until the values change) on Signal / AccSignal objects built from generated records (n 64..300, half of "
+                    "them at 64 / 128 / 256 or next to one; repo sampling rates); every read is compared with a fresh object, all observables "
+                    "at the end; after every read, regeneration and settings change the record itself is compared bit for bit with its state "
+                    "after the last change of the values; "
                     "non-trivial = some observable was read, then a change was made, then the same observable was read again",
                oracle="differential against a freshly constructed object (1e-10 of magnitude)",
                min_nontrivial=0.3)
@@ -611,9 +747,6 @@ machine_clause(CLAUSES, "histories", C04Machine, Hist, quick=120, thorough=350, 
 # targets, 10..1000 response periods, and products of two dimensions - sizes at which a cache "kept only for mid-size
 # inputs", a blocked or a streamed variant would live.  Every case is a short scripted history: warm every observable,
 # apply a change, read EVERY observable again and compare with a fresh object, apply the next change ...
-
-RS_OBS = ("s_a", "s_v", "s_d")
-
 
 def _hh(*parts):
     return int(hashlib.blake2b(":".join(str(p) for p in parts).encode(), digest_size=8).hexdigest(), 16)
@@ -649,6 +782,27 @@ def _same_ends(cur, p):
     return new
 
 
+def _inner(cur):
+    """Same length, same first and last value: only the second and the second-to-last entry move (to the geometric mean with
+    their outer neighbour, so the grid stays ascending).  A cache keyed by the length, the end points, the identity, a leading or
+    a trailing stretch of the settings array is stale after this change."""
+    new = np.array(cur, dtype=float)
+    if len(new) >= 4:
+        new[1] = math.sqrt(new[0] * new[1])
+    if len(new) >= 3:
+        new[-2] = math.sqrt(new[-2] * new[-1])
+    return new
+
+
+def _set_freqs(o, f, route):
+    if route == "freqs":
+        o.smooth_fa_freqs = f
+    elif route == "frequencies":
+        o.smooth_fa_frequencies = f
+    else:
+        o.gen_smooth_fa_spectrum(smooth_fa_freqs=f)
+
+
 def _set_periods(o, T, via):
     if via == "attr":
         o.response_times = T
@@ -676,6 +830,8 @@ MID_MUTATORS = {
     "gen_smooth_w_freqs_n": lambda o, a: o.gen_smooth_fa_spectrum(smooth_fa_freqs=_logf_n(o, a)),
     "set_by_range_n": lambda o, a: o.set_smooth_fa_frequecies_by_range((a["lo"], a["hi"]), len(o.smooth_fa_freqs)),
     "set_freqs_same_ends": lambda o, a: setattr(o, "smooth_fa_freqs", _same_ends(o.smooth_fa_freqs, a["p"])),
+    "set_freqs_inner": lambda o, a: _set_freqs(o, _inner(o.smooth_fa_freqs), a.get("route", "freqs")),
+    "set_periods_inner": lambda o, a: _set_periods(o, _inner(o.response_times), a.get("via", "attr")),
     "set_periods_n": lambda o, a: _set_periods(o, _as(o.dt * np.geomspace(a["rlo"], a["rhi"], len(o.response_times)), a),
                                                a.get("via", "attr")),
     "set_periods_same_ends": lambda o, a: _set_periods(o, _same_ends(o.response_times, a["p"]), a.get("via", "attr")),
@@ -726,6 +882,13 @@ ONEOFF = {
 COMPUTING = {"gen_smooth_w_freqs_n", "gen_smooth_w_freqs", "gen_rs_w_times", "response_series_w_times"}
 
 
+# the steps that change the record; after every other step (settings, explicit generation calls) and after every round of
+# reads the record must be bit for bit what the last of these left
+VALUE_MUTS = {"reset_same_len", "reset_new_len", "reset_values", "add_constant", "add_series", "add_signal", "butter_pass", "remove_average",
+              "remove_poly", "running_average", "rra_velocity", "rra_acc", "rebase_displacement", "zero_res_velocity", "zero_res_displacement",
+              "zero_res_disp_and_velocity", "correct_me"}
+
+
 def _mid_apply(ctx, obj, mut, args, what):
     fn = ONEOFF.get(mut) or MID_MUTATORS.get(mut) or MUTATORS[mut]
     try:
@@ -735,7 +898,7 @@ def _mid_apply(ctx, obj, mut, args, what):
     except MemoryError as e:
         raise core.Inconclusive("out of memory in %s: %s" % (mut, str(e)[:120]))
     except Exception as e:  # noqa
-        if mut in ONEOFF or mut in COMPUTING or args.get("via", "attr") != "attr":
+        if mut in ONEOFF or mut in COMPUTING or args.get("via", "attr") != "attr" or args.get("route") == "gen":
             ctx.fail("%s: %s(%r) raised %s: %s" % (what, mut, args, type(e).__name__, str(e)[:200]))
         raise core.HarnessError("%s(%r) raised %s: %s on a scripted mid-range record" % (mut, args, type(e).__name__, str(e)[:160]))
 
@@ -826,11 +989,13 @@ def _mid_run(case, ctx):
             "rs-read" if acc and case.get("rs", True) else None)
     ctx.nt(len(case["steps"]) > 0)
     key = "%s:%s" % (case["seed"], case["n"])
+    vsnap = np.array(obj.values)
     if case.get("check_ctor"):
         _mid_compare_all(ctx, obj, fresh_of(obj), obs, "freshly constructed (%s/%s)" % (case.get("ctor"), case.get("rctor")), key)
     else:
         for nm in _shuffled(list(obs), key, "warm"):
             _rd(ctx, obj, nm, "warm-up")
+    pure(ctx, obj, vsnap, "n=%d: all observables read once (%s)" % (case["n"], _shuffled(list(obs), key, "warm")))
     hist = []
     anchored = False
     for i, (mut, args) in enumerate(case["steps"]):
@@ -838,6 +1003,10 @@ def _mid_run(case, ctx):
         what = "n=%d, %d targets%s: warm all -> %s" % (case["n"], case["nt"], ", %d periods" % case["P"] if acc else "", " -> ".join(hist))
         ctx.cls("mut=" + mut)
         _mid_apply(ctx, obj, mut, args, what)
+        if mut in VALUE_MUTS:
+            vsnap = np.array(obj.values)
+        else:
+            pure(ctx, obj, vsnap, what)
         try:
             fresh = fresh_of(obj)
         except MemoryError as e:
@@ -847,6 +1016,8 @@ def _mid_run(case, ctx):
             _mid_apply(ctx, fresh, mut, args, what + " (same call on the fresh object)")
             band = args.get("band", 40) if mut == "oneoff_smooth" else 40
         _mid_compare_all(ctx, obj, fresh, obs, what, "%s:%d" % (key, i))
+        pure(ctx, obj, vsnap, what + ", all observables read")
+        pure(ctx, fresh, vsnap, what + ", all observables of the fresh object read")
         last = i == len(case["steps"]) - 1
         smooth_step = mut.startswith(("set_f", "gen_smooth", "scale_freqs", "set_by", "oneoff_smooth", "oneoff_fa"))
         if "smooth_fa_spectrum" in obs and (last or (smooth_step and not anchored)):
@@ -863,9 +1034,9 @@ VAL_ACC = VAL_SIG + ["rebase_displacement", "zero_res_velocity", "zero_res_veloc
 LOOP_SIG = ["running_average"]                      # one Python-level iteration per sample: affordable for shorter records only
 LOOP_ACC = ["running_average", "rra_velocity", "rra_acc", "correct_me"]
 SMOOTH_SAME = ["set_freqs", "set_frequencies", "gen_smooth_w_freqs", "set_freq_range", "set_by_range_n", "scale_freqs_inplace",
-               "set_freqs_same_ends"]             # same number of targets, other values
+               "set_freqs_same_ends", "set_freqs_inner"]   # same number of targets, other values
 SMOOTH_LEN = ["set_freq_points", "set_freqs_new_len"]
-PER_ATTR = ["set_periods", "scale_periods_inplace", "set_periods_same_ends", "set_periods_tail", "set_periods_head"]
+PER_ATTR = ["set_periods", "scale_periods_inplace", "set_periods_same_ends", "set_periods_tail", "set_periods_head", "set_periods_inner"]
 PER_COMP = ["gen_rs_w_times", "generate_rs_w_times", "response_series_w_times"]
 PER_LEN = ["set_periods_new_len"]
 
@@ -925,6 +1096,8 @@ def _step(kind, st, key):
         return ["scale_freqs_inplace", {"c": (1.25, 0.8)[s % 2]}]
     if kind == "set_freqs_same_ends":
         return ["set_freqs_same_ends", {"p": (1.0, 1.7)[s % 2]}]
+    if kind == "set_freqs_inner":
+        return ["set_freqs_inner", {"route": ("freqs", "frequencies", "gen")[s % 3]}]
     if kind == "set_freq_points":
         st["nt"] = max(3, st["nt"] // 2 + s % 3) if s % 2 else st["nt"] + 1 + s % 3
         return ["set_freq_points", {"n": st["nt"]}]
@@ -943,6 +1116,8 @@ def _step(kind, st, key):
         return ["set_periods_edge", {"i": -1, "c": 1.07, "via": ("attr", "gen")[s % 2] if st.get("rs") else "attr"}]
     if kind == "set_periods_head":   # only the first (shortest) period differs
         return ["set_periods_edge", {"i": 0, "c": 0.93, "via": ("attr", "gen")[s % 2] if st.get("rs") else "attr"}]
+    if kind == "set_periods_inner":
+        return ["set_periods_inner", {"via": ("attr", "gen", "generate", "series")[s % 4] if st.get("rs") else "attr"}]
     if kind == "set_periods_new_len":
         st["P"] = max(3, st["P"] // 2 + s % 3) if s % 2 else st["P"] + 1 + s % 3
         return ["set_response_times", {"rlog": [rlo, rhi, st["P"]], "as": how}]
@@ -1021,6 +1196,19 @@ def _deal(cases, shard, nshards):
         yield c
 
 
+def _pow2_sizes(klo, khi, tag, exact=2, near=2):
+    """Record lengths that are an exact power of two (`exact` of them, spread over the exponents klo..khi) or next to one
+    (`near`: 2^k - 1, 2^k + 1 alternating): at 2^k the Fourier transform needs no zero padding, one sample more doubles it."""
+    ks = list(range(klo, khi + 1))
+    out = set()
+    for j in range(exact):
+        part = ks[j * len(ks) // exact:(j + 1) * len(ks) // exact] or ks
+        out.add(2 ** _pick(part, gen.run_seed(), tag, "exact", j))
+    for j in range(near):
+        out.add(2 ** _pick(ks, gen.run_seed(), tag, "near", j) + (-1, 1)[j % 2])
+    return sorted(out)
+
+
 def _chunks(seq, k):
     return [seq[i:i + k] for i in range(0, len(seq), k)]
 
@@ -1031,7 +1219,8 @@ def _len_cases(tier):
     quick = tier == "quick"
     hi = 300000 if quick else 2000000
     # the ladder covers [2000, 0.62 hi]; the upper end itself is always a size (a window that opens above ~0.6 hi is met there)
-    sizes = sorted(set(gen.size_ladder(2000, int(0.62 * hi), 11 if quick else 24, "c04:len:" + tier, mined_limit=4 if quick else 12)) | {2000, hi})
+    sizes = set(gen.size_ladder(2000, int(0.62 * hi), 9 if quick else 24, "c04:len:" + tier, mined_limit=4 if quick else 12)) | {2000, hi}
+    sizes = sorted(sizes | set(_pow2_sizes(11, 18, "c04:len", 2, 2) if quick else _pow2_sizes(11, 20, "c04:len", 10, 6)))
     loop_max = 20000 if quick else 80000
     cases = []
     for i, n in enumerate(sizes):
@@ -1053,8 +1242,8 @@ def _len_enum(tier, shard, nshards):
 
 
 enum_clause(CLAUSES, "mid-range", _len_enum,
-            rule="record length laddered from 2 000 to 300 000 samples (quick: 11 log-bins to 186 000 + both ends + sizes aimed at integer literals of "
-                 "the source; thorough: 24 bins to 2 000 000), AccSignal and Signal; per length every third (above 120 000 samples every fifth; thorough: every) one of 36 / 22 "
+            rule="record length laddered from 2 000 to 300 000 samples (quick: 9 log-bins to 186 000 + both ends + sizes aimed at integer literals of "
+                 "the source + two exact powers of two and two lengths next to one; thorough: 24 bins to 2 000 000), AccSignal and Signal; per length every third (above 120 000 samples every fifth; thorough: every) one of 36 / 22 "
                  "scripted changes (each in-place mutator incl. three Butterworth forms, same-length / shorter / half-length reset_values, "
                  "time-zone variants; every smoothing-frequency setter with the SAME number of targets, same end points, another count; "
                  "period setters) in histories of <= 5 steps: warm every observable, change, re-read EVERY observable, change ...; "
@@ -1070,13 +1259,14 @@ PER_SAME = ["set_periods", "gen_rs_w_times", "generate_rs_w_times", "response_se
             "set_periods_same_ends", "set_periods_tail", "set_periods_head"]
 
 
-def _rs_script(c, idx, loop_ok, extra=0):
-    """[periods changed (same count), values changed, periods changed again (other route / other count) or a smoothing setting]:
-    the kinds rotate with the index of the case and with VERIF_SEED, so that all of them meet all size classes."""
+def _rs_script(c, idx, loop_ok, extra=0, same_len=False):
+    """[two inner periods changed (count and end points kept; route rotating), values changed, periods changed again (another way /
+    another count) or a smoothing setting]: the kinds of the 2nd and 3rd step rotate with the index of the case and with VERIF_SEED,
+    so that all of them meet all size classes."""
     r = idx + gen.run_seed()
-    vals = VAL_ACC + (LOOP_ACC if loop_ok else [])
+    vals = [k for k in VAL_ACC + (LOOP_ACC if loop_ok else []) if not (same_len and k in ("reset_shorter", "reset_half"))]
     third = PER_LEN + ["set_freqs", "set_freq_points"] + PER_SAME
-    kinds = [PER_SAME[r % len(PER_SAME)], vals[(5 * r + 1) % len(vals)], third[(3 * r + 2) % len(third)]]
+    kinds = ["set_periods_inner", vals[(5 * r + 1) % len(vals)], third[(3 * r + 2) % len(third)]]
     for e in range(extra):
         kinds += [vals[(5 * r + 7 + 3 * e) % len(vals)], PER_SAME[(r + 3 + e) % len(PER_SAME)]]
     return _script(c, kinds)
@@ -1091,14 +1281,15 @@ def _rs_cases(tier):
     cases = []
     idx = 0
     # (a) record length, a handful of periods, no interpolation (shortest period >= 20 steps)
-    for n in gen.size_ladder(2000, nmax, 6 if quick else 14, tag + ":n", mined_limit=3 if quick else 8):
+    for n in sorted(set(gen.size_ladder(2000, nmax, 5 if quick else 14, tag + ":n", mined_limit=3 if quick else 8))
+                    | set(_pow2_sizes(11, 14 if quick else 16, tag, 1 if quick else 4, 1 if quick else 3))):
         c = _base("acc", n, "a%d" % idx, tag, nt=8, rs=True)
         cases.append(_rs_script(c, idx, n <= 20000, extra))
         idx += 1
     # (b) the object interpolates the record 2, 3 or 4 times finer (shortest period 12, 8, 6.8 steps)
-    for n in gen.ladder(2000, 9000 if quick else 40000, 4 if quick else 9, tag + ":i"):
+    for n in gen.ladder(2000, 10000 if quick else 40000, 4 if quick else 9, tag + ":i"):
         c = _base("acc", n, "b%d" % idx, tag, nt=8, rs=True, rlo=(12.0, 8.0, 6.8)[(idx + gen.run_seed()) % 3], rhi=200.0)
-        cases.append(_rs_script(c, idx, True, extra))
+        cases.append(_rs_script(c, idx, True, extra, same_len=True))
         idx += 1
     # (c) number of periods
     for P in sorted(set(gen.size_ladder(10, pmax, 7 if quick else 14, tag + ":p", mined_limit=3 if quick else 6)) | {10, pmax}):
@@ -1117,11 +1308,12 @@ def _rs_cases(tier):
 
 enum_clause(CLAUSES, "mid-range-spectra", lambda tier, shard, nshards: _deal(_rs_cases(tier), shard, nshards),
             rule="AccSignal with all 15 observables read (response spectra included) after every step: (a) record length laddered 2 000..24 000 "
-                 "(thorough 120 000; one Python iteration per sample makes longer records unaffordable), (b) records of 2 000..9 000 (40 000) "
+                 "plus an exact power of two and a length next to one (thorough 120 000; one Python iteration per sample makes longer records unaffordable), (b) records of 2 000..10 000 (40 000) "
                  "samples whose shortest period makes the object interpolate 2, 3 or 4 times finer, (c) 10..1000 (3000) periods, (d) periods x "
-                 "samples from 1e5 to 1e7 (2e7); history = periods changed keeping their number (assignment, gen_/generate_response_spectrum, "
-                 "response_series, in-place scaling, same end points, only the last / only the first period), an in-place mutator of the values, "
-                 "periods changed again (other route or other count) or a smoothing setting; kinds rotate with the index and the seed",
+                 "samples from 1e5 to 1e7 (2e7); history = the second and the second-to-last period changed, everything else (count, end points) kept - through "
+                 "assignment, gen_/generate_response_spectrum or response_series in rotation -, an in-place mutator of the values (same length in "
+                 "(b)), periods changed again (all new, in-place scaling, same end points, only the last / only the first period, other count; "
+                 "other route) or a smoothing setting; the kinds of steps 2 and 3 rotate with the index and the seed",
             oracle="differential against a fresh object after every step (1e-10 of magnitude), second and third read bit for bit",
             exhaustive_note="one history per ladder size; not exhaustive over sizes", quick_shards=4)(_mid_run)
 
@@ -1136,7 +1328,10 @@ def _split_product(total, key, n_lo, n_hi, nt_lo=10, nt_hi=5000):
         return None
     e = _pick(es, key, "e")
     lo, hi = max(n_lo, 2 ** e + 1), min(n_hi, 2 ** (e + 1))
-    return lo + _hh(key, "n") % (hi - lo + 1), int(-(-total // 2 ** e))
+    n = lo + _hh(key, "n") % (hi - lo + 1)
+    if _hh(key, "pow2") % 3 == 0 and hi == 2 ** (e + 1):
+        n = hi  # exactly the transform length: no zero padding
+    return n, int(-(-total // 2 ** e))
 
 
 def _smooth_script(c, idx, product):
@@ -1144,10 +1339,10 @@ def _smooth_script(c, idx, product):
     acc = c["cls"] == "acc"
     vals = (VAL_ACC if acc else VAL_SIG) + (["running_average"] if c["n"] <= 20000 else [])
     vals = [k for k in vals if k != "reset_half"]
-    kinds = [SMOOTH_SAME[r % len(SMOOTH_SAME)], vals[(5 * r + 1) % len(vals)]]
+    kinds = ["set_freqs_inner", vals[(5 * r + 1) % len(vals)]]
     oneoff = ()
-    if product <= 2.5e6:
-        kinds.append(SMOOTH_SAME[(r + 3) % len(SMOOTH_SAME)])
+    if product <= 1.0e7:
+        kinds.append(SMOOTH_SAME[r % (len(SMOOTH_SAME) - 1)])
         oneoff = ("band", "freqs_band")
         kinds += [oneoff[r % 2], vals[(5 * r + 4) % len(vals)], SMOOTH_LEN[r % 2]]
     return _script(c, kinds, oneoff)
@@ -1161,7 +1356,7 @@ def _smooth_cases(tier):
     idx = 0
     # (a) number of targets (records of about 1 100..2 000 samples: 1024 Fourier frequencies)
     for nt in sorted(set(gen.size_ladder(10, 5000, 8 if quick else 18, tag + ":t", mined_limit=3 if quick else 6)) | {10, 5000}):
-        n = 1100 + _hh(gen.run_seed(), tag, "tn", nt) % 900
+        n = 2048 if _hh(gen.run_seed(), tag, "t2", nt) % 4 == 0 else 1100 + _hh(gen.run_seed(), tag, "tn", nt) % 900
         c = _base(("acc", "sig")[idx % 2], n, "a%d" % idx, tag, nt=nt, rs=True)
         c["fam"] = "smooth-targets"
         cases.append(_smooth_script(c, idx, 1024 * nt))
@@ -1184,10 +1379,10 @@ def _smooth_cases(tier):
 enum_clause(CLAUSES, "mid-range-smooth", lambda tier, shard, nshards: _deal(_smooth_cases(tier), shard, nshards),
             rule="(a) 10..5000 smoothing targets (8 log-bins, thorough 18, + ends + source literals) on records with 1024 Fourier frequencies; "
                  "(b) Fourier frequencies x targets laddered from 1e5 to 3e7 (8 log-bins, thorough 20 to 4e7, + products just above source "
-                 "literals), record 2 000..300 000 samples (thorough 1 000 000) and 10..5000 targets by a hash-chosen split; history = a "
-                 "smoothing setting changed keeping the number of targets (setter, deprecated setter, gen_smooth_fa_spectrum(freqs), range, "
-                 "by-range, in-place scaling, same end points), an in-place mutator of the values, "
-                 "[<= 2.5e6: a second same-count change, a one-off gen_/generate_smooth_fa_spectrum(band=20|57.5|80 [, freqs]), a mutator, another number of targets]; "
+                 "literals), record 2 000..300 000 samples (thorough 1 000 000) and 10..5000 targets by a hash-chosen split; history = the "
+                 "second and the second-to-last target moved, everything else (count, end points) kept - through the setter, the deprecated "
+                 "setter or gen_smooth_fa_spectrum(freqs) in rotation -, an in-place mutator of the values, [<= 1e7: another same-count change "
+                 "(all new through one of the three routes, range, by-range, in-place scaling, same end points)], [<= 2.5e6: a one-off gen_/generate_smooth_fa_spectrum(band=20|57.5|80 [, freqs]), a mutator, another number of targets]; "
                  "AccSignal / Signal alternate (Signal above 1e7); all observables re-read after every step",
             oracle="differential against a fresh object after every step (after a one-off band: a fresh object given the same call), 1e-10 of "
                    "magnitude, second and third read bit for bit; two targets anchored to the Konno-Ohmachi reference of C07",
@@ -1200,6 +1395,10 @@ def _opt_cases(tier):
     quick = tier == "quick"
     tag = "c04:options:" + tier
     sizes = gen.ladder(2500, 30000 if quick else 120000, 2 if quick else 5, tag + ":n")
+    if quick:  # one ladder length and one exact power of two
+        sizes = [_pick(sizes, gen.run_seed(), tag, "n"), 2 ** _pick([12, 13], gen.run_seed(), tag, "k")]
+    else:
+        sizes = sorted(set(sizes) | set(_pow2_sizes(12, 16, tag, 2, 1)))
     cases = []
     idx = [0]
 
@@ -1222,7 +1421,7 @@ def _opt_cases(tier):
         npad = 2 ** int(math.ceil(math.log2(n)))
         # gen_fa_spectrum(p2_plus x n): n = None, an odd length above the record's, an even length below it
         for p2 in (None, 0, 1, 2):
-            for nn in (None, npad + 1 + 2 * (n % 50), 2 * (n // 3)):
+            for nn in (None, n, npad + 1 + 2 * (n % 50), 2 * (n // 3)):
                 if p2 is None and nn is None:
                     continue
                 a = {}
@@ -1297,8 +1496,8 @@ def _opt_cases(tier):
 
 
 enum_clause(CLAUSES, "mid-range-options", lambda tier, shard, nshards: _deal(_opt_cases(tier), shard, nshards),
-            rule="option crosses at 2 (thorough 5) hash-chosen record lengths in 2 500..30 000 (120 000): gen_fa_spectrum(p2_plus in {-,0,1,2} x n in "
-                 "{-, odd > npts, even < npts}), gen_smooth_fa_spectrum(smooth_fa_freqs in {-, same count, other count} x band in {-,20,57.5}) and "
+            rule="option crosses at 2 record lengths (one from a ladder over 2 500..30 000, one exact power of two 4096 / 8192; thorough: 5 + 3 to 120 000): gen_fa_spectrum(p2_plus in {-,0,1,2} x n in "
+                 "{-, npts, odd > npts, even < npts}), gen_smooth_fa_spectrum(smooth_fa_freqs in {-, same count, other count} x band in {-,20,57.5}) and "
                  "generate_smooth_fa_spectrum(band), generate_displacement_and_velocity_series(trap), gen_/generate_response_spectrum(response_times "
                  "in {-, same count, other count} x xi in {-,0.02,0.3} x min_dt_ratio in {-,1,9}) with a shortest period of 3 steps (records of "
                  "1 200..1 800 samples, thorough to 12 000, integrated on a grid up to 7 times finer), each followed by an in-place mutator of the values; butter_pass(form x filter_order x remove_gibbs x "
